@@ -138,8 +138,9 @@ func batchToRequests(connectionGroup []builderSlotGroup) []requestBatch {
 				batch.UnitID = unitID
 			}
 
-			slotEndAddress := slotAddress + slot.size
-			addressDiff := slotEndAddress - firstAddress
+			// calculate in 32 bits as end address of a slot at the end of address space (65535) does not fit into uint16
+			slotEndAddress := uint32(slotAddress) + uint32(slot.size)
+			addressDiff := uint16(min(slotEndAddress-uint32(firstAddress), 0xffff))
 			if addressDiff > addressLimit {
 				result = append(result, batch)
 
